@@ -1,14 +1,62 @@
 package main
 
 import (
+	"bytes"
+	"os"
+	"os/exec"
+	"strings"
+	"sync"
+
 	"free5gclib/nas/security"
 )
 
 // Domain sec-alg: security.NASEncrypt / security.NASMacCalculate (C07).
 //   nasenc <alg> <key16> <count> <bearer> <dir> <payload>   → payload afterwards
 //   nasmac <alg> <key16> <count> <bearer> <dir> <msg>       → MAC
+//   nasenc_cold / nasmac_cold: the same call as the FIRST use of the algorithms in a fresh process, made by 12 goroutines at
+//       once, each on its own buffers (a table built lazily on first use must be complete for every one of them)
+//       → the common result | ok diff
 func init() {
 	register("sec-alg", secAlg)
+	cold := func(name string, call func(a []string) string) {
+		registerOp(name+"_cold", func(a []string) string { return childOp(name+"_coldin", a) })
+		registerOp(name+"_coldin", func(a []string) string {
+			const g = 12
+			var start, done sync.WaitGroup
+			start.Add(1)
+			res := make([]string, g)
+			for i := 0; i < g; i++ {
+				done.Add(1)
+				go func(i int) {
+					defer done.Done()
+					defer func() {
+						if r := recover(); r != nil {
+							res[i] = "panic"
+						}
+					}()
+					start.Wait()
+					res[i] = call(a)
+				}(i)
+			}
+			start.Done()
+			done.Wait()
+			for _, r := range res {
+				if r != res[0] {
+					return "ok diff"
+				}
+			}
+			return res[0]
+		})
+	}
+	cold("nasenc", func(a []string) string {
+		buf := aHex(a[5])
+		err := security.NASEncrypt(uint8(aU64(a[0])), a16(a[1]), uint32(aU64(a[2])), uint8(aU64(a[3])), uint8(aU64(a[4])), buf)
+		return okHex(buf, err)
+	})
+	cold("nasmac", func(a []string) string {
+		m, err := security.NASMacCalculate(uint8(aU64(a[0])), a16(a[1]), uint32(aU64(a[2])), uint8(aU64(a[3])), uint8(aU64(a[4])), aHex(a[5]))
+		return okHex(m, err)
+	})
 	registerOp("nasenc", func(a []string) string {
 		buf := aHex(a[5])
 		err := security.NASEncrypt(uint8(aU64(a[0])), a16(a[1]), uint32(aU64(a[2])), uint8(aU64(a[3])), uint8(aU64(a[4])), buf)
@@ -18,6 +66,22 @@ func init() {
 		m, err := security.NASMacCalculate(uint8(aU64(a[0])), a16(a[1]), uint32(aU64(a[2])), uint8(aU64(a[3])), uint8(aU64(a[4])), aHex(a[5]))
 		return okHex(m, err)
 	})
+}
+
+// childOp executes one op in a fresh child process of this binary
+func childOp(name string, a []string) string {
+	cmd := exec.Command(os.Args[0], "run")
+	cmd.Env = append(os.Environ(), "VERIF_CORR_CHILD=1")
+	cmd.Stdin = strings.NewReader(name + " " + strings.Join(a, " ") + "\n")
+	var out bytes.Buffer
+	cmd.Stdout = &out
+	cmd.Run()
+	for _, line := range strings.Split(out.String(), "\n") {
+		if i := strings.IndexByte(line, '\t'); i >= 0 && strings.HasPrefix(line, name+" ") {
+			return line[i+1:]
+		}
+	}
+	return "bad-op"
 }
 
 func secAlgCase(e *emitter, mac bool, alg uint8, key [16]byte, count uint32, bearer, dir uint8, msg []byte) {
@@ -105,6 +169,16 @@ func secAlg(e *emitter) {
 				}
 			}
 		}
+	}
+	// first use of every algorithm in a fresh process, by 12 goroutines at once
+	for i := 0; i < 24; i++ {
+		alg := uint8(1 + i%2)
+		msg := e.bytes(16 + e.rng.Intn(48))
+		op := "nasenc_cold"
+		if i%4 >= 2 {
+			op = "nasmac_cold"
+		}
+		e.op(op, u(uint64(alg)), hx(keys[1][:]), u(uint64(e.rng.Uint32())), "1", u(uint64(i%2)), hx(msg))
 	}
 	// random cases, including argument-check edges
 	for i := 0; i < e.n; i++ {
